@@ -1183,6 +1183,34 @@ impl std::task::Wake for WakeFlag {
 
 /// Drive a future to completion on the current simulator task.  "Park" is a simulator block
 /// until the waker fires, so wake order is decided by the simulator.
+/// Like [`block_on`], but the future is DROPPED (cancelled, as `timeout`/`select!`/task abort
+/// do) once it has returned `Pending` more than `max_pending` times: `None`.
+pub fn block_on_cancel<F: std::future::Future>(fut: F, max_pending: u32) -> Option<F::Output> {
+    let mut fut = std::pin::pin!(fut);
+    let flag = Arc::new(WakeFlag(AtomicBool::new(false)));
+    let waker = std::task::Waker::from(flag.clone());
+    let mut cx = std::task::Context::from_waker(&waker);
+    let mut pendings = 0u32;
+    loop {
+        match fut.as_mut().poll(&mut cx) {
+            std::task::Poll::Ready(v) => return Some(v),
+            std::task::Poll::Pending => {
+                pendings += 1;
+                if pendings > max_pending {
+                    return None;
+                }
+                if flag.0.load(Ordering::SeqCst) {
+                    yield_fair();
+                } else {
+                    let f = flag.clone();
+                    block("await", &move || f.0.load(Ordering::SeqCst));
+                }
+                flag.0.store(false, Ordering::SeqCst);
+            }
+        }
+    }
+}
+
 pub fn block_on<F: std::future::Future>(fut: F) -> F::Output {
     let mut fut = std::pin::pin!(fut);
     let flag = Arc::new(WakeFlag(AtomicBool::new(false)));
